@@ -35,6 +35,34 @@ func c13child(args []string) {
 	l.Close()
 	var progress int64
 	var wg sync.WaitGroup
+	if mode == "stream-unaccepted" {
+		// the last Close of an address while the accept loop holds a connection nobody accepted,
+		// then the address again
+		G = 0
+		wg.Add(1)
+		go func() {
+			defer wg.Done()
+			for i := 0; i < iters; i++ {
+				addr := fmt.Sprintf("127.0.0.1:%d", base+1+i%50)
+				ln, err := mgr.ListenStream(addr)
+				if err != nil {
+					atomic.AddInt64(&progress, 1)
+					continue
+				}
+				c, derr := net.DialTimeout("tcp", addr, time.Second)
+				time.Sleep(3 * time.Millisecond) // let the accept loop take it
+				ln.Close()
+				atomic.AddInt64(&progress, 1)
+				if derr == nil {
+					c.Close()
+				}
+				if ln2, err := mgr.ListenStream(addr); err == nil {
+					ln2.Close()
+				}
+				atomic.AddInt64(&progress, 1)
+			}
+		}()
+	}
 	if mode == "stream-bindfail" || mode == "packet-bindfail" {
 		// error paths: a Listen that fails at bind (the address is held by someone else), then
 		// the same address again once it is free, and an unrelated address
@@ -170,10 +198,10 @@ func c13(ctx *Ctx) {
 	runs := []struct {
 		mode     string
 		g, iters int
-	}{{"stream-same", 8, 3000}, {"packet-same", 8, 3000}, {"stream-distinct", 8, 300}, {"mixed-same", 8, 2000}, {"stream-bindfail", 1, 200}, {"packet-bindfail", 1, 200}}
+	}{{"stream-same", 8, 3000}, {"packet-same", 8, 3000}, {"stream-distinct", 8, 300}, {"mixed-same", 8, 2000}, {"stream-bindfail", 1, 200}, {"packet-bindfail", 1, 200}, {"stream-unaccepted", 1, 150}}
 	if ctx.Thorough() {
 		for i := 0; i < 6; i++ {
-			runs = append(runs, runs[i%6])
+			runs = append(runs, runs[i%7])
 		}
 	}
 	for _, rn := range runs {
